@@ -78,39 +78,80 @@ Proof.
   all: try (injection H as _ <- _ _ _; cbn; first [left; reflexivity | right; eexists; split; [reflexivity | right; reflexivity]]).
 Qed.
 
-(* ---------- the pool is left empty: at the step at which pipeline() returns, no task of this pipeline is queued or running ---------- *)
+(* ---------- the pool is left empty: at the step at which pipeline() returns, the task set counts no task (outstandingTaskCount_ =
+   pout - gx = 0), nothing is queued, and the only wrappers still on some thread's stack are those of skipped generator tasks whose
+   functor is being destroyed (program point PEnd: the CompletionGuard counts the latch down, then workRemaining_ is decremented;
+   the guard shares ownership of the completion event, /repo 81d0d61) ---------- *)
+Definition m_gx : meas := MS (fun f => match f with FPool _ PEnd => 1 | _ => 0 end) (fun _ _ => 0) (fun _ => 0) (fun _ => 0).
+Definition m_busy : meas := MS (fun f => match f with FPool _ PEnd => 0 | FPool _ _ => 1 | _ => 0 end) (fun _ _ => 0) (fun _ => 1) (fun _ => 0).
+
+Lemma gx_local c t s th ch s1 th1 ch1 site wake :
+  mstep_thread c t s th ch = Some (s1, th1, ch1, site, wake) -> dlt m_gx s th s1 th1 = gx s1 - gx s.
+Proof.
+  intros H. unfold dlt. step_cases H th.
+  all: acct_pre Hst.
+  all: rewrite ?(gatesw_zero m_gx) by reflexivity.
+  all: rewrite ?(strandw_zero m_gx) by (intros; reflexivity).
+  all: cbn [mf mq mb me m_gx gx w_gx w_pout w_exc w_result]; unfold destroy_pipes; cbn [gx w_gates].
+  all: try (assert (GS : forall t0 j0 gs0 s0, gx (strand_gates t0 j0 gs0 s0) = gx s0) by
+              (clear; intros t0 j0 gs0; revert j0; induction gs0 as [|g r0 IH]; intros j0 s0; cbn; [reflexivity|]; rewrite IH;
+               generalize (g_q g); intros q; revert s0; induction q as [|[p it] q IHq]; intros s0; cbn; [reflexivity | rewrite IHq; reflexivity]);
+            rewrite ?GS; cbn [gx w_exc w_result]).
+  all: acct_fin.
+Qed.
+
+Theorem gx_invariant c s : reach (mstep c) (init c) s -> gx (sh s) = total m_gx s.
+Proof.
+  intros R. apply (reach_inv (mstep c) (fun s => gx (sh s) = total m_gx s) (init c)); [| | exact R].
+  - rewrite init_total_frames by reflexivity. reflexivity.
+  - intros s1 t ch s1' ch' site I E. apply mstep_inv in E. destruct E as (th & s2 & th1 & wake & N & M & ->).
+    pose proof (gx_local c t (sh s1) th ch s2 th1 ch' site wake M) as D.
+    pose proof (total_step m_gx (threads s1) t th (sh s1) s2 th1 wake eq_refl N) as T1.
+    destruct s1 as [s0 ths]; cbn [sh threads] in *. lia.
+Qed.
+
 Lemma done_local c t s th ch s1 th1 ch1 site wake :
-  mstep_thread c t s th ch = Some (s1, th1, ch1, site, wake) -> done s = false -> done s1 = true -> pout s1 = 0.
+  mstep_thread c t s th ch = Some (s1, th1, ch1, site, wake) -> done s = false -> done s1 = true -> pout s1 - gx s1 = 0.
 Proof.
   intros H. step_cases H th.
-  all: mnorm; rewrite ?strand_gates_done, ?strand_gates_pout; cbn [done pout w_done w_result w_exc]; try congruence.
+  all: mnorm; rewrite ?strand_gates_done, ?strand_gates_pout; cbn [done pout gx w_done w_result w_exc w_gx w_pout]; try congruence.
   all: intros _ _; bool_hyps; try lia.
-  all: match goal with E : (pout _ =? 0) = true |- _ => apply Z.eqb_eq in E; exact E end.
+  all: match goal with E : (pout _ - gx _ =? 0) = true |- _ => apply Z.eqb_eq in E; exact E end.
+Qed.
+
+Lemma busy_split s : total m_pool s = total m_busy s + total m_gx s.
+Proof.
+  rewrite <- total_plus. apply total_ext; intros; cbn [mf mq mb me mplus m_pool m_busy m_gx]; try lia.
+  destruct f; try lia. destruct pc; lia.
 Qed.
 
 Theorem pool_usable_after c s t ch s' ch' site :
   reach (mstep c) (init c) s -> mstep c s t ch = Some (s', ch', site) -> done (sh s) = false -> done (sh s') = true ->
-  pout (sh s') = 0 /\ bag (sh s') = [] /\ forall th, In th (threads s') -> forall f, In f (stack th) -> match f with FPool _ _ => False | _ => True end.
+  pout (sh s') - gx (sh s') = 0 /\ bag (sh s') = [] /\
+  forall th, In th (threads s') -> forall f, In f (stack th) -> match f with FPool _ PEnd => True | FPool _ _ => False | _ => True end.
 Proof.
   intros R E D0 D1.
-  assert (P : PoolInv s') by (apply (pool_invariant c); eapply reach_step; eauto).
+  assert (R' : reach (mstep c) (init c) s') by (eapply reach_step; eauto).
+  pose proof (pool_invariant c s' R') as P. pose proof (gx_invariant c s' R') as G. unfold PoolInv in P. rewrite busy_split in P.
   pose proof E as E'. apply mstep_inv in E'. destruct E' as (th & s2 & th1 & wake & N & M & ->). cbn [sh] in *.
   pose proof (done_local c t (sh s) th ch s2 th1 ch' site wake M D0 D1) as P0. split; [exact P0|].
-  unfold PoolInv in P. cbn [sh] in P. rewrite P0 in P. unfold total, shw in P. rewrite gatesw_zero in P by reflexivity.
-  set (ths' := set_nth (if wake then wake_all (threads s) else threads s) t th1) in *. cbn [sh threads] in P.
-  assert (B0 : 0 <= bagw m_pool (bag s2)) by (unfold bagw; apply sumf_nonneg; intros; cbn; lia).
-  assert (L0 : logw m_pool (log s2) = 0) by (unfold logw; apply sumf_zero; intros; reflexivity).
-  assert (T0 : 0 <= thsw m_pool ths') by (unfold thsw; apply sumf_nonneg; intros; apply sumf_nonneg; intros f; destruct f; cbn; lia).
+  set (st' := ST s2 (set_nth (if wake then wake_all (threads s) else threads s) t th1)) in *.
+  assert (BZ : total m_busy st' = 0) by lia. unfold total, shw in BZ. rewrite gatesw_zero in BZ by reflexivity. cbn [sh threads st'] in BZ.
+  set (ths' := set_nth (if wake then wake_all (threads s) else threads s) t th1) in *.
+  assert (B0 : 0 <= bagw m_busy (bag s2)) by (unfold bagw; apply sumf_nonneg; intros; cbn; lia).
+  assert (L0 : logw m_busy (log s2) = 0) by (unfold logw; apply sumf_zero; intros; reflexivity).
+  assert (FN : forall g, 0 <= mf m_busy g) by (intros g; destruct g; cbn; try lia; destruct pc; lia).
+  assert (T0 : 0 <= thsw m_busy ths') by (unfold thsw; apply sumf_nonneg; intros; apply sumf_nonneg; exact FN).
   split.
-  - assert (bagw m_pool (bag s2) = 0) by lia. destruct (bag s2) as [|a l]; [reflexivity|]. unfold bagw in H; cbn [sumf mb m_pool] in H.
-    assert (0 <= sumf (fun e => mb m_pool (snd e)) l) by (apply sumf_nonneg; intros; cbn; lia). cbn [mb m_pool] in *. lia.
-  - intros th' Ht f Hf. cbn [threads] in Ht. assert (TZ : thsw m_pool ths' = 0) by lia.
-    destruct f; try exact I. exfalso.
-    assert (1 <= stackw m_pool (stack th')).
-    { change 1 with (mf m_pool (FPool tk pc)). unfold stackw. apply sumf_in_le; [intros g; destruct g; cbn; lia | exact Hf]. }
-    assert (stackw m_pool (stack th') <= thsw m_pool ths').
-    { unfold thsw. apply (sumf_in_le (fun th0 => stackw m_pool (stack th0))); [intros; apply sumf_nonneg; intros g; destruct g; cbn; lia | exact Ht]. }
-    lia.
+  - assert (bagw m_busy (bag s2) = 0) by lia. destruct (bag s2) as [|a l]; [reflexivity|]. unfold bagw in H; cbn [sumf mb m_busy] in H.
+    assert (0 <= sumf (fun e => mb m_busy (snd e)) l) by (apply sumf_nonneg; intros; cbn; lia). cbn [mb m_busy] in *. lia.
+  - intros th' Ht f Hf. cbn [threads st'] in Ht. assert (TZ : thsw m_busy ths' = 0) by lia.
+    assert (FZ : mf m_busy f = 0).
+    { assert (mf m_busy f <= stackw m_busy (stack th')) by (unfold stackw; apply sumf_in_le; [exact FN | exact Hf]).
+      assert (stackw m_busy (stack th') <= thsw m_busy ths') by
+        (unfold thsw; apply (sumf_in_le (fun th0 => stackw m_busy (stack th0))); [intros; apply sumf_nonneg; exact FN | exact Ht]).
+      pose proof (FN f). lia. }
+    destruct f; try exact I. destruct pc; try exact I; cbn in FZ; discriminate.
 Qed.
 
 (* ---------- what holds when no stage throws: no payload is ever skipped or stranded, pipeline() returns normally ---------- *)
